@@ -14,6 +14,8 @@ Definition sp (n : nat) : str := repeat 32 n.          (* n spaces *)
 Definition nls (n : nat) : str := repeat 10 n.         (* n line feeds *)
 (* blank lines, each with the given number of spaces *)
 Definition bl (ns : list nat) : str := concat (map (fun n => sp n ++ [10]) ns).
+(* blank lines inside quoted scalars: each consists of white space (spaces and tabs) *)
+Definition blw (ws : list str) : str := concat (map (fun w => w ++ [10]) ws).
 
 (* ---------- characters ---------- *)
 (* printable, not white space, not a line break, not the BOM, not a surrogate *)
@@ -37,7 +39,7 @@ Inductive dq_item :=
 | DChr (c : N)                       (* the character itself *)
 | DEsc (c : N)                       (* backslash c, a single-character escape *)
 | DHex (k : N) (digits : str)        (* backslash x / u / U followed by 2 / 4 / 8 hex digits *)
-| DBrk (k : nat) (ind : str).        (* escaped line break: backslash, line feed, k blank lines,
+| DBrk (ks : list str) (ind : str).  (* escaped line break: backslash, line feed, blank lines,
                                         the leading white space of the next line (all dropped,
                                         the k line feeds are kept) *)
 
@@ -46,10 +48,10 @@ Inductive chomp := Clip | Strip | Keep.
 Inductive flow :=
 | FPlain  (l0 : pline) (more : list (nat * list nat * nat * pline))
           (* continuation: trailing spaces of the previous line, blank lines, indent, words *)
-| FSingle (l0 : str) (more : list (str * nat * str * str))
+| FSingle (l0 : str) (more : list (str * list str * str * str))
           (* continuation: trailing white space of the previous line (dropped), blank lines,
              indentation white space (dropped), content *)
-| FDouble (l0 : list dq_item) (more : list (str * nat * str * list dq_item)).
+| FDouble (l0 : list dq_item) (more : list (str * list str * str * list dq_item)).
 
 Record header := HD {
   h_chomp : chomp;
@@ -90,7 +92,7 @@ Definition print_dq_item (d : dq_item) : str :=
   | DChr c => [c]
   | DEsc c => [92; c]
   | DHex k ds => 92 :: k :: ds
-  | DBrk k ind => [92; 10] ++ nls k ++ ind
+  | DBrk ks ind => [92; 10] ++ blw ks ++ ind
   end.
 Definition print_dq (t : list dq_item) : str := flat_map print_dq_item t.
 
@@ -104,10 +106,10 @@ Definition print_flow (f : flow) : str :=
       concat (map (fun '(tsp, ks, ind, l) => sp tsp ++ [10] ++ bl ks ++ sp ind ++ print_pline l) more)
   | FSingle l0 more =>
       [39] ++ print_sq l0 ++
-      concat (map (fun '(tws, k, ind, t) => tws ++ [10] ++ nls k ++ ind ++ print_sq t) more) ++ [39]
+      concat (map (fun '(tws, ks, ind, t) => tws ++ [10] ++ blw ks ++ ind ++ print_sq t) more) ++ [39]
   | FDouble l0 more =>
       [34] ++ print_dq l0 ++
-      concat (map (fun '(tws, k, ind, t) => tws ++ [10] ++ nls k ++ ind ++ print_dq t) more) ++ [34]
+      concat (map (fun '(tws, ks, ind, t) => tws ++ [10] ++ blw ks ++ ind ++ print_dq t) more) ++ [34]
   end.
 
 Definition print_chomp (c : chomp) : str :=
@@ -206,7 +208,7 @@ Definition dq_meaning_item (d : dq_item) : str :=
   | DChr c => [c]
   | DEsc c => match yaml_escape c with Some r => [r] | None => [] end
   | DHex _ ds => [hexval ds]
-  | DBrk k _ => nls k
+  | DBrk ks _ => nls (length ks)
   end.
 Definition dq_meaning (t : list dq_item) : str := flat_map dq_meaning_item t.
 
@@ -218,9 +220,9 @@ Definition flow_meaning (f : flow) : str :=
   | FPlain l0 more =>
       print_pline l0 ++ concat (map (fun '(_, ks, _, l) => fold_sep (length ks) ++ print_pline l) more)
   | FSingle l0 more =>
-      l0 ++ concat (map (fun '(_, k, _, t) => fold_sep k ++ t) more)
+      l0 ++ concat (map (fun '(_, ks, _, t) => fold_sep (length ks) ++ t) more)
   | FDouble l0 more =>
-      dq_meaning l0 ++ concat (map (fun '(_, k, _, t) => fold_sep k ++ dq_meaning t) more)
+      dq_meaning l0 ++ concat (map (fun '(_, ks, _, t) => fold_sep (length ks) ++ dq_meaning t) more)
   end.
 
 Definition more_indented (t : str) : bool :=
@@ -295,7 +297,7 @@ Definition wf_dq_item (d : dq_item) : bool :=
       (((k =? 120) && Nat.eqb (length ds) 2) || ((k =? 117) && Nat.eqb (length ds) 4)
        || ((k =? 85) && Nat.eqb (length ds) 8))
       && forallb is_hex ds && (hexval ds <=? 1114111)
-  | DBrk _ ind => forallb wsc ind
+  | DBrk ks ind => forallb (forallb wsc) ks && forallb wsc ind
   end.
 
 (* what follows an escaped line break is not white space (it would be read as indentation) *)
@@ -328,12 +330,12 @@ Definition is_nil {A} (l : list A) : bool := match l with [] => true | _ => fals
 
 (* continuation lines of a quoted scalar; [prev] is the content of the line before the break *)
 Fixpoint wf_qmore {T} (wf_t ends_ws starts_ws empty : T -> bool) (first : bool) (prev : T)
-         (more : list (str * nat * str * T)) : bool :=
+         (more : list (str * list str * str * T)) : bool :=
   match more with
   | [] => true
-  | (tws, _, ind, t) :: more' =>
+  | (tws, ks, ind, t) :: more' =>
       negb (ends_ws prev) && (first || negb (empty prev)) &&
-      forallb wsc tws && first_is (fun c => c =? 32) ind && forallb wsc ind &&
+      forallb wsc tws && forallb (forallb wsc) ks && first_is (fun c => c =? 32) ind && forallb wsc ind &&
       wf_t t && negb (starts_ws t) &&
       wf_qmore wf_t ends_ws starts_ws empty false t more'
   end.
